@@ -328,6 +328,11 @@ def c08(tier):
     recon_mc_and_replay(c, tier, False)
     tasks = basic_corpus(tier) + program_tasks(tier, "six", [REGIONS2, REGIONS3, COMMENTS], cfg_mode="rotate", sample_every=Q(tier, 499, 4999))
     tasks += texts_tasks(dirblock_programs(c, tier), "six", chunks=32, cfg_mode="rotate", sample_every=Q(tier, 997, 9973))
+    # every configuration of the wide set (units of 1..255 columns, continuations wider than the line) on the seeds and on
+    # generated programs; deep nesting (indentation beyond 100 and 255 columns) under every unit
+    tasks += seed_tasks("wide", sample_every=Q(tier, 997, 4999)) if tier == "quick" else []
+    tasks += program_tasks(tier, "wide", [PLAIN, MIXED], cfg_mode="rotate", sample_every=Q(tier, 997, 9973))
+    tasks += split_tasks("scaled", {"max_k": Q(tier, 40, 80)}, Q(tier, 40, 80) * 13, [], "wide", chunks=32, sample_every=Q(tier, 499, 4999))
     c.explore(tasks, "corpus", ["C08"], sample_cap=Q(tier, 250, 1500))
     return c.finish(
         rule="as C01, plus generated programs with one or two verbatim regions (also inside one statement) and blank-line runs in the middle of statements; the whitespace predicates of Props.tla (WhitespaceViolations) are evaluated on the final token table of every call; the end-of-file clause on well-formed inputs (seeds) only")
